@@ -40,3 +40,8 @@ def run(ctx):
     ctx.assumptions += ['MiniFortran subset: integer/real(dyadic)/logical scalars, 1-d/2-d arrays with arbitrary lower bounds, DO/DO WHILE/IF/SELECT CASE/EXIT/CYCLE, module subroutine and function calls, array sections, PRINT',
                         'the PROGRAM driver is harness-owned and not passed through Loki (main programs are unsupported by the frontend)',
                         'derived types, WHERE, internal procedures, OPEN are not yet generated']
+
+
+def selftest(ctx):
+    from .. import selftests
+    return selftests.c01(ctx)
